@@ -149,7 +149,7 @@ def job(n):
 
 
 def jobs(tier, seed):
-    return [H.Job("order-stats-%d" % n, job, n, weight=n * n) for n in range(1, (5 if tier == "quick" else 6) + 1)]
+    return [H.Job("order-stats-%d" % n, job, n, weight=n * n) for n in range(1, (5 if tier == "quick" else 7) + 1)]
 
 
 def extra_coverage(results):
